@@ -37,6 +37,9 @@ func NewShared() *Shared {
 	for i := range s.Palette {
 		s.Palette[i] = color.RGBA{uint8(i), uint8(2 * i), uint8(3 * i), 0xff}
 	}
+	// nonsensical entries: the shared option value must be sanitised per decode, not in place
+	s.Palette[5] = color.RGBA{0x90, 0x00, 0x00, 0x10}
+	s.Palette[9] = color.RGBA{0x02, 0x4a, 0x8a, 0x00}
 	{
 		var e encode.Encoder
 		b, _ := e.Bytes()
